@@ -44,6 +44,9 @@ type caseEnv struct {
 	tdb    map[string]uint64
 	tcoll  map[string]uint64
 	tpart  map[string]uint64
+	// warm: before the name mappings are installed the writer sees (failing) traffic for every source name - the mappings of a
+	// task that is added later to a shared writer must take effect for names that were resolved before
+	warm bool
 }
 
 type op struct {
@@ -56,8 +59,22 @@ func bm(ets uint64) msgstream.BaseMsg {
 	return msgstream.BaseMsg{BeginTimestamp: ets, EndTimestamp: ets, HashValues: []uint32{0}}
 }
 
+var srcBaseCalls int
+
+// srcBase: the base of a source operation message; every third one already carries a replicate info (a message that went
+// through an earlier replication hop): the request sent downstream must carry this hop's stamp all the same
 func srcBase(t commonpb.MsgType) *commonpb.MsgBase {
-	return &commonpb.MsgBase{MsgType: t, MsgID: 77, Timestamp: 5, SourceID: 3}
+	srcBaseCalls++
+	b := &commonpb.MsgBase{MsgType: t, MsgID: 77, Timestamp: 5, SourceID: 3}
+	switch srcBaseCalls % 3 {
+	case 1:
+		b.ReplicateInfo = &commonpb.ReplicateInfo{IsReplicate: true, MsgTimestamp: 17, ReplicateID: "hop-A"}
+	case 2:
+		if srcBaseCalls%2 == 0 {
+			b.ReplicateInfo = &commonpb.ReplicateInfo{}
+		}
+	}
+	return b
 }
 
 func pack(stamp uint64, msgs ...msgstream.TsMsg) *msgstream.MsgPack {
@@ -282,7 +299,10 @@ func genOp(r *rand.Rand, e *caseEnv, kind int, db, coll string, parts []string, 
 				Grantor: &milvuspb.GrantorEntity{User: &milvuspb.UserEntity{Name: randName(r)}, Privilege: &milvuspb.PrivilegeEntity{Name: "Insert"}}}}
 		return op{cq.App("MRbac", "KOperatePrivilege", N(stamp), L(wfake.PrivPay(req))), fail, opMsg(stamp, &msgstream.OperatePrivilegeMsg{BaseMsg: bm(ts), OperatePrivilegeRequest: req})}
 	case 22:
-		return op{"PackEmpty", false, func(w api.Writer) error { _, err := w.HandleOpMessagePack(context.Background(), pack(stamp)); return err }}
+		return op{"PackEmpty", false, func(w api.Writer) error {
+			_, err := w.HandleOpMessagePack(context.Background(), pack(stamp))
+			return err
+		}}
 	case 23:
 		m := &msgstream.CreateDatabaseMsg{BaseMsg: bm(ts), CreateDatabaseRequest: &milvuspb.CreateDatabaseRequest{Base: srcBase(commonpb.MsgType_CreateDatabase), DbName: "twice"}}
 		return op{"PackTwo", false, func(w api.Writer) error {
@@ -317,6 +337,21 @@ func runCase(o *cq.Out, e *caseEnv, ops []op) {
 	nm := map[string]string{}
 	for _, m := range e.nm {
 		nm[util.GetFullCollectionName(m[1], m[0])] = util.GetFullCollectionName(m[3], m[2])
+	}
+	if e.warm {
+		// while nothing exists downstream every operation stops at its readiness probe: the writer learns nothing but has
+		// resolved every source name once
+		wr := rand.New(rand.NewSource(1))
+		dbs, colls, parts := h.DBs, h.Colls, h.Parts
+		h.DBs, h.Colls, h.Parts = map[string]bool{}, map[[2]string]bool{}, map[[3]string]bool{}
+		for _, db := range srcDBs {
+			for _, c := range srcColls {
+				_ = genOp(wr, e, 12, db, c, nil, 1, 1, false, false).run(w)
+			}
+		}
+		h.DBs, h.Colls, h.Parts = dbs, colls, parts
+		h.FailNext = false
+		h.Calls = nil
 	}
 	w.(*writer.ChannelWriter).UpdateNameMappings(nm)
 	var opTerms, obsTerms []string
@@ -427,6 +462,7 @@ func main() {
 	}
 	for n := 0; n < a.N; n++ {
 		e := randEnv(r, r.Intn(7))
+		e.warm = *mode == "c09" && r.Intn(2) == 0
 		nops := 1 + r.Intn(8)
 		var ops []op
 		for i := 0; i < nops; i++ {
